@@ -220,3 +220,4 @@ def run(ctx):
                    'the Option returned by write_node_plan (None = node rewritten at its old address) is inspected by the caller (is_some / match / or(..)) before it is stored as an address' + (' [returned to its own caller]' if passthrough else ''),
                    inspected or passthrough, 'the result is stored or forwarded without looking at None', b.loc(site))
     ctx.ob('4b write_node_plan-callers', 'anchor', WNP, 'write_node_plan has four call sites (root split, root rewrite, child rewrite, split child)', nsites >= 4, 'found %d' % nsites)
+    shared.recursion_audit(ctx, '6', ['btree::'])
